@@ -244,7 +244,7 @@ pub extern "sysv64" fn memory_read_byte(areas: *const MemoryAreas, addr: u16) ->
     }
   }
   if addr == 0xffff { // Interrupt Mask
-    return memory_areas.io.interrupt_mask;
+    return memory_areas.io.interrupt_mask | memory_areas.io.interrupt_mask_unused;
   }
   // High RAM
   memory_areas.high_ram[addr as usize & 0x7f]
@@ -310,6 +310,8 @@ pub extern "sysv64" fn memory_write_byte(areas: *mut MemoryAreas, addr: u16, val
   }
   if addr == 0xffff { // Interrupt Mask
     memory_areas.io.interrupt_mask = value & 0x1f;
+    // the upper three bits select nothing, but they are stored and read back
+    memory_areas.io.interrupt_mask_unused = value & 0xe0;
     return;
   }
   {
